@@ -31,9 +31,24 @@ BUILTIN_CALLS = {"int": "_symx_int", "ord": "_symx_ord", "chr": "_symx_chr", "fl
 
 
 class Rewriter(ast.NodeTransformer):
-    def __init__(self, strings=True, order=False):
+    def __init__(self, strings=True, order=False, dicts=False):
         self.strings = strings
         self.order = order
+        self.dicts = dicts
+
+    def visit_Dict(self, node):
+        self.generic_visit(node)
+        if self.dicts and all(k is not None for k in node.keys):
+            pairs = ast.List(elts=[ast.Tuple(elts=[k, v], ctx=ast.Load()) for k, v in zip(node.keys, node.values)], ctx=ast.Load())
+            return ast.copy_location(ast.Call(func=ast.Name(id="_symx_dict", ctx=ast.Load()), args=[pairs], keywords=[]), node)
+        return node
+
+    def visit_DictComp(self, node):
+        self.generic_visit(node)
+        if self.dicts:
+            lc = ast.ListComp(elt=ast.Tuple(elts=[node.key, node.value], ctx=ast.Load()), generators=node.generators)
+            return ast.copy_location(ast.Call(func=ast.Name(id="_symx_dict", ctx=ast.Load()), args=[ast.copy_location(lc, node)], keywords=[]), node)
+        return node
 
     # --- membership
     def visit_Compare(self, node):
@@ -138,7 +153,7 @@ class _Loader(importlib.machinery.SourceFileLoader):
 
     def source_to_code(self, data, path, *a, **k):
         tree = ast.parse(data, filename=path)
-        tree = Rewriter(strings=self.opts.get("strings", True), order=self.opts.get("order", False)).visit(tree)
+        tree = Rewriter(strings=self.opts.get("strings", True), order=self.opts.get("order", False), dicts=self.opts.get("dicts", False)).visit(tree)
         ast.fix_missing_locations(tree)
         return compile(tree, path, "exec", dont_inherit=True)
 
@@ -173,6 +188,7 @@ class _Finder(importlib.abc.MetaPathFinder):
 
 
 FINDER = _Finder()
+DICT_FACTORY = [dict]      # harnesses that enable the {..} rewrite set this to a mapping with solver-compared keys
 
 
 def install(config=None, default=None):
@@ -196,6 +212,7 @@ def _install_builtins():
     for k in dir(symops):
         if k.startswith("_symx_"):
             setattr(builtins, k, getattr(symops, k))
+    builtins._symx_dict = lambda pairs: DICT_FACTORY[0](pairs)
     builtins._symx_iter = oset.sym_iter
     builtins._symx_set = lambda items: oset.OSet(items)
 
